@@ -45,34 +45,6 @@ let run_case line =
   | _ -> failwith ("bad wire case: " ^ line)
 
 (* the same X case as a Gallina equation (kernel cross-check of the extracted client model) *)
-let dec_of_z z = let b = Buffer.create 8 in List.iter (fun c -> Buffer.add_char b (Char.chr (int_of_n c))) (render_Z z); Buffer.contents b
-let g_N n = "(" ^ dec_of_n n ^ ")%N"
-let g_Z z = "(" ^ dec_of_z z ^ ")%Z"
-let g_lst ty f l = if l = [] then "(@nil " ^ ty ^ ")" else g_list f l
-let g_dur d = "{| secs := " ^ g_N d.secs ^ "; nanos := " ^ g_N d.nanos ^ " |}"
-let g_mvalue = function
-  | Signed z -> "(Signed " ^ g_Z z ^ ")" | PackedSigned l -> "(PackedSigned " ^ g_lst "Z" g_Z l ^ ")"
-  | Unsigned n -> "(Unsigned " ^ g_N n ^ ")" | PackedUnsigned l -> "(PackedUnsigned " ^ g_lst "N" g_N l ^ ")"
-  | Float t -> "(Float " ^ g_str t ^ ")" | PackedFloat l -> "(PackedFloat " ^ g_lst "(list N)" g_str l ^ ")"
-let g_arg = function
-  | AI64 z -> "(AI64 " ^ g_Z z ^ ")" | AI32 z -> "(AI32 " ^ g_Z z ^ ")"
-  | AU64 n -> "(AU64 " ^ g_N n ^ ")" | AU32 n -> "(AU32 " ^ g_N n ^ ")"
-  | AF64 t -> "(AF64 " ^ g_str t ^ ")" | ADur d -> "(ADur " ^ g_dur d ^ ")"
-  | AVecU64 l -> "(AVecU64 " ^ g_lst "N" g_N l ^ ")" | AVecF64 l -> "(AVecF64 " ^ g_lst "(list N)" g_str l ^ ")"
-  | AVecDur l -> "(AVecDur " ^ g_lst "duration" g_dur l ^ ")" | AUser v -> "(AUser " ^ g_mvalue v ^ ")"
-let g_kind = function
-  | Counter -> "Counter" | Timer -> "Timer" | Gauge -> "Gauge" | Meter -> "Meter"
-  | Histogram -> "Histogram" | Distribution -> "Distribution" | SetK -> "SetK"
-let g_bop = function
-  | WithTag (k, v) -> "(WithTag " ^ g_str k ^ " " ^ g_str v ^ ")" | WithTagValue v -> "(WithTagValue " ^ g_str v ^ ")"
-  | WithContainerId c -> "(WithContainerId " ^ g_str c ^ ")" | WithTimestamp t -> "(WithTimestamp " ^ g_N t ^ ")"
-  | WithSamplingRate r -> "(WithSamplingRate " ^ g_str r ^ ")"
-let g_tag (k, v) = "(" ^ g_option g_str k ^ ", " ^ g_str v ^ ")"
-let g_form = function TrySend -> "TrySend" | Plain -> "Plain" | Quiet -> "Quiet"
-let g_so = function Accept -> "Accept" | Refuse (k, id) -> "(Refuse " ^ g_N k ^ " " ^ g_N id ^ ")"
-let g_merr = function EInvalid -> "EInvalid" | EIo (k, id) -> "(EIo " ^ g_N k ^ " " ^ g_N id ^ ")"
-let g_ret = function ROkMetric l -> "(ROkMetric " ^ g_str l ^ ")" | RError e -> "(RError " ^ g_merr e ^ ")" | RUnit -> "RUnit"
-
 let coq_header =
   "Require Import Cadence.Base.Prelude Cadence.Model.Convert Cadence.Model.Wire Cadence.Model.Client.\n"
 
